@@ -25,7 +25,8 @@
 (*   listed  l.segments: sequence of indices into segs                     *)
 (*   hw, ro  high watermark, read-only flag                                *)
 (*   wait    hwWaiters: readers registered and blocked                     *)
-(*   app     the (single) appender   [pc, new, res]                        *)
+(*   app     the (single) appender   [pc, new, res]  (Append; the follower *)
+(*           path AppendMessageSet is the one-step action DoAppSet)        *)
 (*   rol     the cleaner loop's checkAndPerformSplit   [pc, new]           *)
 (*   tog     SetReadonly caller      [pc]                                  *)
 (*   rd      committed readers, local state of committedReader:            *)
@@ -142,6 +143,21 @@ AppWrite ==
   /\ segs' = [segs EXCEPT ![active].n = @ + 1]
   /\ app' = [pc |-> "idle", new |-> 0, res |-> "ok"]
   /\ UNCHANGED <<cfg, active, listed, hw, ro, wait, rol, tog, rd, del>>
+
+\* AppendMessageSet(ms): the path of a follower / of reconciliation.  There is
+\* no read-only check (a read-only log still grows by replication), and the
+\* caller - the replication loop, the only writer of a follower's log - runs
+\* checkAndPerformSplit and the write without another writer in between: one
+\* step, only while no Append and no split of the cleaner loop is in flight
+DoAppSet ==
+  /\ app.pc = "idle" /\ rol.pc = "idle"
+  /\ LET split == Full(active)
+         S1 == IF split THEN Append(segs, [base |-> Newest + 1, n |-> 0]) ELSE segs
+         a1 == IF split THEN Len(segs) + 1 ELSE active
+     IN /\ segs' = [S1 EXCEPT ![a1].n = @ + 1]
+        /\ active' = a1
+        /\ listed' = IF split THEN Append(listed, a1) ELSE listed
+  /\ UNCHANGED <<cfg, hw, ro, wait, app, rol, tog, rd, del>>
 
 -----------------------------------------------------------------------------
 (* Roller: cleanerLoop -> checkAndPerformSplit                              *)
@@ -326,6 +342,10 @@ C03_Run == \A r \in Readers : \A i \in 1..Len(del[r]) :
 C03_NoDeath == \A r \in Readers : rd[r].pc # "dead"
 \* a registered waiter is waiting for the current HW (no lost wake-up)
 C03_NoLostWakeup == \A r \in wait : rd[r].pc = "blocked" /\ rd[r].rhw = hw
+\* a reader that sleeps is known to those who wake sleepers: a reader asleep on
+\* a channel that is in nobody's hands is never handed another message, whatever
+\* is committed later (the other half of "no lost wake-up")
+C03_Wakeable == \A r \in Readers : rd[r].pc = "blocked" => r \in wait
 
 TypeOK ==
   /\ active \in 1..Len(segs) /\ hw \in -1..Newest /\ ro \in BOOLEAN
